@@ -245,7 +245,8 @@ class _LikelihoodSum(LikelihoodEnergyOperator):
 
         data_residuals = reduce(add, res)
         super(_LikelihoodSum, self).__init__(data_residuals, sqrt_data_metric_at)
-        self._domain = data_residuals.domain
+        from ..sugar import domain_union
+        self._domain = domain_union([oo.domain for oo in ops])
 
     @classmethod
     def unpack(cls, ops, res):
